@@ -9,8 +9,8 @@ Two halves:
     Theorems in Properties/C16Caches.v over Model/Replica.v (proofs: Proofs/ReplicaCaches.v),
     correspondence `vh replica` vs Model.ReplicaRun.run_case on flood scenarios
     (gen/replica_gen.py, opts["flood"]) through c05.run_replica_cases, predicates on every
-    snapshot of the implementation.  Its generated Coq case files go to build/cases/C16R (the
-    queue half keeps build/cases/C16); regression scenarios, if any, in corpus/C16R.json.
+    snapshot of the implementation.  Its generated Coq case files go to build/cases/C16R<batch>
+    (the queue half keeps build/cases/C16).
 """
 import json
 import sys
@@ -692,16 +692,58 @@ def run_cache_half(rep, rng, cov, broken):
     po = common.proof_obligations(CACHE_PROP_FILES)
     if not po["ok"]:
         broken.append("Coq obligations of Properties/C16Caches.v: " + (po["log_tail"] or str(po["hygiene_problems"] or po["bad_axioms"])))
-    stats = {"snapshots": 0, "max_commit_views": 0, "max_commit_qc_views": 0, "max_qcs_in_one_view": 0,
-             "max_timeout_views": 0, "max_timeout_qc_views": 0, "snapshots_with_several_views_cached": 0,
-             "distinct_views_seen": set()}
-    opts = {"rounds": 4 if tier == "quick" else 6, "crash": False, "extreme": False,
-            "flood": {"turns": 25 if tier == "quick" else 40, "byz": 3}}
-    ncases = 16 if tier == "quick" else 160
-    mine = []
-    R = c05.run_replica_cases(rep, "C16R", opts, ncases, rng, mine,
-                              extra_pred=lambda c, o: predicate_caches(c, o, stats))
-    broken += mine
+    opts = {"rounds": 3 if tier == "quick" else 6, "crash": False, "extreme": False,
+            "flood": {"votes": 200 if tier == "quick" else 900, "byz": 3}}
+    # common.run_impl gives one harness process per 50 cases, and the Rust side (real BLS signatures,
+    # dev profile) is the slow one; a few long scenarios would therefore run sequentially.  So the
+    # scenarios are run as independent batches of c05.run_replica_cases, concurrently.
+    nbatch, per_batch = (8, 4) if tier == "quick" else (16, 8)
+    rngs = [rng.fork() for _ in range(nbatch)]
+
+    def new_stats():
+        return {"snapshots": 0, "max_commit_views": 0, "max_commit_qc_views": 0, "max_qcs_in_one_view": 0,
+                "max_timeout_views": 0, "max_timeout_qc_views": 0, "snapshots_with_several_views_cached": 0,
+                "distinct_views_seen": set()}
+
+    def batch(k):
+        st, mine = new_stats(), []
+        r = c05.run_replica_cases(rep, "C16R%d" % k, opts, per_batch, rngs[k], mine,
+                                  extra_pred=lambda c, o: predicate_caches(c, o, st))
+        return r, st, mine
+
+    from concurrent.futures import ThreadPoolExecutor
+    for b, prof in (("qc", "dev"), ("replica", "dev")):  # build once, before the batches start
+        ok, out = common.cargo_build([b], prof)
+        if not ok:
+            raise common.MachineryError("cargo build failed: " + out[-2000:])
+    with ThreadPoolExecutor(max_workers=nbatch) as ex:
+        results = list(ex.map(batch, range(nbatch)))
+    stats = new_stats()
+    R = {"cases": [], "outs": [], "mm": {}, "samp": {}, "pred_fail": [], "kinds": {}, "steps": 0, "dist": 0,
+         "results": {}, "sample_ids": [0, 1]}
+    for r, st, mine in results:
+        base = len(R["cases"])
+        broken += [m.replace("C16R", "C16 cache half, batch ") for m in mine]
+        R["cases"] += r["cases"]
+        R["outs"] += r["outs"]
+        R["mm"].update({base + i: v for i, v in r["mm"].items()})
+        R["samp"].update({base + i: v for i, v in r["samp"].items()})
+        for p_ in r["pred_fail"]:
+            p_["case_index"] += base
+        R["pred_fail"] += r["pred_fail"]
+        for k_, v in r["kinds"].items():
+            R["kinds"][k_] = R["kinds"].get(k_, 0) + v
+        for k_, v in r["results"].items():
+            R["results"][k_] = R["results"].get(k_, 0) + v
+        R["steps"] += r["steps"]
+        R["dist"] += r["dist"]
+        for k_, v in st.items():
+            if k_ == "distinct_views_seen":
+                stats[k_] |= v
+            elif k_.startswith("max_"):
+                stats[k_] = max(stats[k_], v)
+            else:
+                stats[k_] += v
     cases, outs, mm = R["cases"], R["outs"], R["mm"]
     flood_msgs = sum(v for k, v in R["kinds"].items() if k in ("flood:commit", "flood:timeout"))
     per_case_views = []
@@ -715,7 +757,7 @@ def run_cache_half(rep, rng, cov, broken):
         per_case_views.append(len(vs))
     if not R["pred_fail"]:
         # the generator must actually stress the caches, otherwise the predicates are vacuous
-        if flood_msgs < 100 * len(cases) or stats["max_commit_qc_views"] < 2 or stats["max_timeout_qc_views"] < 2 \
+        if flood_msgs < 50 * len(cases) or stats["max_commit_qc_views"] < 2 or stats["max_timeout_qc_views"] < 2 \
                 or stats["max_qcs_in_one_view"] < 2:
             raise common.MachineryError(f"flood generator too weak: {flood_msgs} flood votes, stats {stats}")
     pred_fail = [{"case": p["case"], "impl": {"obs_at_step": outs[p["case_index"]]["obs"][p["step"]] if "step" in p else None},
@@ -734,22 +776,23 @@ def run_cache_half(rep, rng, cov, broken):
     cov["evaluations"] = cov.get("evaluations", 0) + R["steps"]
     cov["distinct_nontrivial"] = cov.get("distinct_nontrivial", 0) + R["dist"]
     cov["checker_cmd"] = cov.get("checker_cmd", "") + "; ./coqmake theories/Properties/C16Caches.vo + coqc on generated " \
-        "build/cases/C16R/cases_*.v (vm_compute of Model.ReplicaRun.run_case)"
+        "build/cases/C16R<batch>/cases_*.v (vm_compute of Model.ReplicaRun.run_case)"
     cov["trusted_base"] = cov.get("trusted_base", []) + [
         "cache half: bft hook feature verif_hooks (step-driven replica wrapper, snapshot of the four caches; add-only)",
         "cache half: harness execution engine of `vh replica` (blocks persisted as soon as queued; payload verdict by id)"]
     cov["partial"] = cov.get("partial", "").replace("see run_cache_half", "see cache_partial")
     cov.update({
         "cache_rule": "replica scenarios of gen/replica_gen.py with opts['flood']: one replica among 2-7 validators, a puppet network "
-                      "walking 4 (quick) / 6 (thorough) views through commit and timeout rounds with the usual injected faults; up to 3 "
-                      "Byzantine members whose joint weight is below the quorum each send, in bursts of 25 / 40 turns before and after "
-                      "every round, validly signed commit and timeout votes (kinds alternating) for views nobody is in: per member and "
-                      "kind a rising view counter (steps 1,1,1,1,2,5 so that members meet in one view with equal or different votes) "
-                      "starting 2, 60, 10^6, 2^40 or u64::MAX-10^6 views ahead; 1/16 of the votes repeat or undercut the member's last "
-                      "view, 1/16 carry a bad signature, 1/16 come from a non-member. Per step the outcome, the ordered effects and "
-                      "the full snapshot (including the four caches: views maps, per-view certificate counts) are compared with "
-                      "Model.ReplicaRun.run_case; the predicates are evaluated on every snapshot of the implementation. "
-                      "evaluations += steps executed; distinct_nontrivial += distinct step observations",
+                      "walking 3 (quick) / 6 (thorough) views through commit and timeout rounds with the usual injected faults; 1-3 "
+                      "Byzantine members whose joint weight is below the quorum send, in bursts before and after every round, about 200 "
+                      "(quick) / 900 (thorough) validly signed commit and timeout votes per scenario (kinds alternating) for views "
+                      "nobody is in: per member and kind a rising view counter (steps 1,1,1,1,2,5 so that members meet in one view "
+                      "with equal or different votes) starting 2, 60, 10^6, 2^40 or u64::MAX-10^6 views ahead; 1/16 of the votes "
+                      "repeat or undercut the member's last view, 1/16 carry a bad signature, 1/16 come from a non-member. Per step "
+                      "the outcome, the ordered effects and the full snapshot (including the four caches: views maps, per-view "
+                      "certificate counts) are compared with Model.ReplicaRun.run_case; the predicates are evaluated on every "
+                      "snapshot of the implementation. evaluations += steps executed; distinct_nontrivial += distinct step "
+                      "observations",
         "cache_scenarios": len(cases), "cache_steps": R["steps"], "cache_distinct_step_observations": R["dist"],
         "cache_flood_votes": flood_msgs,
         "cache_distinct_vote_views_per_scenario": {"min": min(per_case_views), "max": max(per_case_views)},
